@@ -794,12 +794,13 @@ namespace
     }
     value resize_array_scalar(runtime& runtime, value::cref left, value::cref right)
     {
-        auto i = right.data<d_scalar, size_t>();
-        if (i < 0)
+        auto f = right.data<d_scalar, float>();
+        if (!(f >= 0))
         {
             runtime.__logmsg(err::NegativeSize(runtime.context_active().current_frame().diag_info_from_position()));
             return {};
         }
+        auto i = static_cast<size_t>(f);
         left.data<d_array>()->resize(i);
         return {};
     }
